@@ -100,23 +100,38 @@ class Prop(fw.PropBase):
         return cases
 
     def table_cases(self):
-        """synthetic BAM libraries for the count-table entry point"""
-        n = 6 if self.tier == 'quick' else 60
+        """histories of create_count_table calls in ONE process on ONE reused options namespace; each call
+        reads 1-2 synthetic BAMs, each with 1-2 contigs of different length (the same contig name may have
+        different lengths in different files); reads carry DS values on bin multiples, 0, contig ends"""
+        n = 20 if self.tier == 'quick' else 150
         out = []
         for _ in range(n):
-            b = self.rng.choice([1, 2, 5, 10, 30, 100])
-            s = self.rng.choice([None, None, b, max(1, b // 2), max(1, b // 3), 1])
-            reflen = self.rng.choice([b * 7, b * 7 + 3, 95, 200])
-            reads = []
-            for r in range(self.rng.randint(5, 40)):
-                k = self.rng.randint(0, max(0, reflen // b))
-                ds = self.rng.choice([k * b, k * b - 1, k * b + 1, 0, reflen, reflen - 1, reflen - b,
-                                      self.rng.randint(-3, reflen + 3)])
-                reads.append({'ds': ds, 'pos': self.rng.randint(0, reflen - 1), 'sample': 'c%d' % self.rng.randint(0, 2),
-                              'paired': self.rng.random() < 0.5, 'other': self.rng.choice(['x', 'y'])})
-            out.append({'bin': b, 'sliding': s, 'reflen': reflen, 'reads': reads,
-                        'keep': self.rng.random() < 0.4, 'divide': self.rng.random() < 0.5,
-                        'extra_tag': self.rng.random() < 0.4})
+            calls = []
+            b0 = self.rng.choice([1, 2, 5, 10, 30, 100])
+            for c in range(self.rng.choice([1, 1, 2, 3])):
+                b = b0 if self.rng.random() < 0.7 else self.rng.choice([1, 2, 5, 10, 30, 100])
+                s = self.rng.choice([None, None, b, max(1, b // 2), max(1, b // 3), 1])
+                bams = []
+                for f in range(self.rng.choice([1, 1, 2])):
+                    contigs = []
+                    for cn in range(self.rng.choice([1, 2, 2])):
+                        contigs.append(['chr%d' % (cn + 1), self.rng.choice([b * 7, b * 7 + 3, b * 3, 95, 200, b * 12 + 1])])
+                    reads = []
+                    for r in range(self.rng.randint(4, 25)):
+                        ci = self.rng.randrange(len(contigs))
+                        reflen = contigs[ci][1]
+                        other_lens = [x[1] for x in contigs] + [reflen]
+                        L = self.rng.choice(other_lens)
+                        k = self.rng.randint(0, max(0, L // b))
+                        ds = self.rng.choice([k * b, k * b - 1, k * b + 1, 0, L, L - 1, L - b, L - b + 1, 3,
+                                              self.rng.randint(-3, L + 3)])
+                        reads.append({'ds': ds, 'contig': ci, 'pos': self.rng.randint(0, reflen - 1),
+                                      'sample': 'c%d' % self.rng.randint(0, 2), 'paired': self.rng.random() < 0.5,
+                                      'other': self.rng.choice(['x', 'y'])})
+                    bams.append({'contigs': contigs, 'reads': reads})
+                calls.append({'bin': b, 'sliding': s, 'bams': bams, 'keep': self.rng.random() < 0.35,
+                              'divide': self.rng.random() < 0.5})
+            out.append({'calls': calls, 'extra_tag': self.rng.random() < 0.4})
         return out
 
     # ---------------------------------------------------------------- K
@@ -128,14 +143,14 @@ class Prop(fw.PropBase):
         boundary = sum(1 for dp, b, s in cases if dp % s == 0 or (dp - b) % s == 0)
         distinct = len(set(cases))
         self.cov.update({
-            'evaluations': len(cases) * 2 + len(tables),
+            'evaluations': len(cases) * 2 + sum(len(h['calls']) for h in tables),
             'distinct_nontrivial': len(set(c for c in cases if c[0] % c[2] == 0 or (c[0] - c[1]) % c[2] == 0)),
             'rule': 'kernel: (dp,b,s) exhaustive for small b (all s<=b, dp around -2b..N) plus boundary-biased samples up to '
-                    '2^40, both copies of coordinate_to_bins; table: synthetic BAMs through create_count_table(return_df). '
+                    '2^40, both copies of coordinate_to_bins; table: histories of 1-3 create_count_table(return_df) calls in one process on one reused options namespace, 1-2 synthetic BAMs per call, 1-2 contigs of different lengths per BAM. '
                     'non-trivial = coordinate on a window boundary (dp mod s = 0 or (dp-b) mod s = 0); distinct by tuple',
             'kernel_cases': len(cases), 'kernel_distinct': distinct, 'on_boundary': boundary,
             'precondition_hit_rate': round(sum(1 for c in cases if 0 < c[2] <= c[1]) / len(cases), 4),
-            'table_libraries': len(tables),
+            'table_histories': len(tables),
             'samples': [{'input': list(cases[i]), 'impl': res['kernel_u'][i]} for i in (0, len(cases) // 2, len(cases) - 150)],
             'exhaustive': False,
         })
@@ -149,19 +164,27 @@ class Prop(fw.PropBase):
                 dis.append({'fn': 'utils.binning.coordinate_to_bins', 'input': list(c), 'model': mu[i], 'impl': res['kernel_u'][i]})
             if mt[i] != res['kernel_t'][i]:
                 dis.append({'fn': 'bamToCountTable.coordinate_to_bins', 'input': list(c), 'model': mt[i], 'impl': res['kernel_t'][i]})
-        # table level
-        tin = [self.table_model_input(t) for t in tables]
-        mtab = fw.run_model('C10', 2, tin)
-        for i, t in enumerate(tables):
-            impl = res['tables'][i]
-            if impl.get('error'):
-                dis.append({'fn': 'create_count_table', 'input': t, 'impl_error': impl['error']})
-                continue
-            got = sorted([k, v] for k, v in impl['cells'])
-            exp = sorted(self.decode_table(t, mtab[i]))
-            if got != exp:
-                dis.append({'fn': 'create_count_table', 'input': t, 'model': exp, 'impl': got})
-        self.cov['traces_validated_against_impl'] = len(cases) * 2 + len(tables)
+        # table level: every call of every history
+        ncalls = 0
+        for i, h in enumerate(tables):
+            impl_calls = res['tables'][i]
+            mins = [self.table_model_input(h, c) for c in h['calls']]
+            mouts = fw.run_model('C10', 2, mins)
+            for j, c in enumerate(h['calls']):
+                ncalls += 1
+                impl = impl_calls[j]
+                if impl.get('error'):
+                    dis.append({'fn': 'create_count_table', 'input': h, 'call': j, 'impl_error': impl['error']})
+                    continue
+                got = sorted([k, v] for k, v in impl['cells'])
+                exp = sorted(self.decode_table(h, c, mouts[j]))
+                if got != exp:
+                    dis.append({'fn': 'create_count_table', 'input': h, 'call': j, 'model': exp, 'impl': got})
+        self.cov['table_calls'] = ncalls
+        self.cov['table_calls_with_several_files_or_contig_lengths'] = sum(
+            1 for h in tables for c in h['calls'] if len(set(x[1] for bm in c['bams'] for x in bm['contigs'])) > 1)
+        self.cov['table_histories_with_several_calls'] = sum(1 for h in tables if len(h['calls']) > 1)
+        self.cov['traces_validated_against_impl'] = len(cases) * 2 + ncalls
         self.cov['disagreements'] = len(dis)
         # vm_compute cross-check of the extracted binary on a sample
         idx = sorted(self.rng.sample(range(len(cases)), 100))
@@ -173,25 +196,23 @@ class Prop(fw.PropBase):
             self.dis = dis
             raise fw.Broken('correspondence', 'model and implementation disagree on %d cases; first: %r' % (len(dis), dis[0]))
 
-    def table_model_input(self, t):
-        # weights in half units: paired & mate mapped & fragments divided -> 1 half, else 2 halves
-        s = t['sliding'] if t['sliding'] is not None else t['bin']
-        samples = sorted(set(r['sample'] for r in t['reads']))
-        others = ['x', 'y']
-        reads = []
-        for r in t['reads']:
-            w = 1 if (t['divide'] and r['paired']) else 2
-            key = samples.index(r['sample']) * 2 + (others.index(r['other']) if t['extra_tag'] else 0)
-            reads.append([r['ds'], w, key])
-        return [1 if t['keep'] else 0, t['reflen'], t['bin'], s, reads]
+    SAMPLES = ['c0', 'c1', 'c2']
 
-    def decode_table(self, t, mv):
-        samples = sorted(set(r['sample'] for r in t['reads']))
+    def table_model_input(self, h, c):
+        # weights in half units: paired & mate mapped & fragments divided -> 1 half, else 2 halves
+        s = c['sliding'] if c['sliding'] is not None else c['bin']
+        reads = []
+        for bm in c['bams']:
+            for r in bm['reads']:
+                w = 1 if (c['divide'] and r['paired']) else 2
+                key = self.SAMPLES.index(r['sample']) * 2 + (['x', 'y'].index(r['other']) if h['extra_tag'] else 0)
+                reads.append([r['ds'], w, key, bm['contigs'][r['contig']][1]])
+        return [1 if c['keep'] else 0, c['bin'], s, reads]
+
+    def decode_table(self, h, c, mv):
         out = []
         for key, lo, hi, w in mv:
-            sample = samples[key // 2]
-            other = ['x', 'y'][key % 2] if t['extra_tag'] else None
-            out.append([[sample, other, lo, hi], w])
+            out.append([[self.SAMPLES[key // 2], ['x', 'y'][key % 2] if h['extra_tag'] else None, lo, hi], w])
         return out
 
     # ---------------------------------------------------------------- search
@@ -214,23 +235,31 @@ class Prop(fw.PropBase):
                                                % (name, dp, b, s, o, exp), 'input': [dp, b, s], 'impl': o, 'expected': exp})
         if best:
             self.witnesses.append(best[1])
-        for t, impl in zip(self.tables, res['tables']):
-            if impl.get('error'):
-                self.witnesses.append({'key': 'table:error', 'what': 'create_count_table raised ' + impl['error'], 'input': t})
-                continue
-            s = t['sliding'] if t['sliding'] is not None else t['bin']
-            exp = {}
-            for r in t['reads']:
-                w = 1 if (t['divide'] and r['paired']) else 2
-                for i in range((r['ds'] - t['bin']) // s + 1, r['ds'] // s + 1):
-                    lo, hi = i * s, i * s + t['bin']
-                    if not t['keep'] and (lo < 0 or hi > t['reflen']):
-                        continue
-                    k = (r['sample'], r['other'] if t['extra_tag'] else None, lo, hi)
-                    exp[k] = exp.get(k, 0) + w
-            got = {tuple(k): v for k, v in impl['cells']}
-            if got != exp:
-                diff = sorted(set(got.items()) ^ set(exp.items()), key=str)[:4]
-                self.witnesses.append({'key': 'table:cells', 'what': 'count table differs from the windows containing each read: %r' % (diff,),
-                                       'input': t})
+        for h, impl_calls in zip(self.tables, res['tables']):
+            bad = False
+            for j, (c, impl) in enumerate(zip(h['calls'], impl_calls)):
+                if impl.get('error'):
+                    self.witnesses.append({'key': 'table:error', 'what': 'create_count_table raised %s in call %d of the history' % (impl['error'], j), 'input': h})
+                    bad = True
+                    break
+                s = c['sliding'] if c['sliding'] is not None else c['bin']
+                exp = {}
+                for bm in c['bams']:
+                    for r in bm['reads']:
+                        w = 1 if (c['divide'] and r['paired']) else 2
+                        reflen = bm['contigs'][r['contig']][1]
+                        for i in range((r['ds'] - c['bin']) // s + 1, r['ds'] // s + 1):
+                            lo, hi = i * s, i * s + c['bin']
+                            if not c['keep'] and (lo < 0 or hi > reflen):
+                                continue
+                            k = (r['sample'], r['other'] if h['extra_tag'] else None, lo, hi)
+                            exp[k] = exp.get(k, 0) + w
+                got = {tuple(k): v for k, v in impl['cells']}
+                if got != exp:
+                    diff = sorted(set(got.items()) ^ set(exp.items()), key=str)[:4]
+                    self.witnesses.append({'key': 'table:cells', 'what': 'call %d of %d (one process, one options namespace): count table differs from the '
+                                           'windows containing each read inside its own contig: %r' % (j, len(h['calls']), diff), 'input': h})
+                    bad = True
+                    break
+            if bad:
                 break
